@@ -780,7 +780,7 @@ func c10FirstAttempt(c *Check) {
 							msg = "tryDelivery is not handed plain variables"
 							continue
 						}
-						defs, ok := lr.ReachingDefs(o, pt, world)
+						defs, ok := lr.ReachingDefsDeep(o, pt, world, 0)
 						if inMem {
 							if !ok || len(defs) != 1 {
 								msg = "with the message in the slot, argument " + itoa(ai+1) + " of tryDelivery is not uniquely the slot's part"
